@@ -1,45 +1,68 @@
 #!/bin/bash
-# tools/seedmatrix.sh [seed-name-glob] — runs EVERY quick check against every kept seeded change and writes
-# seeded/MATRIX.md (which checks catch which changes). Isolated: works on a copy of /verif under /tmp and on
-# scratch worktrees of /repo (VERIF_REPO), so it can run next to other checks. Removes both when done.
+# tools/seedmatrix.sh [seed-name-glob] [lanes] — re-runs, on the current tree, the quick checks that are recorded
+# as catching each kept seeded change (the property's own check plus every check named in meta.json's
+# check_result) and writes seeded/MATRIX.md. MATRIX_ALL=1 runs EVERY check against every change instead (≈8 h).
+# Isolated: each lane works on its own copy of /verif under /tmp and on its own scratch worktree of /repo
+# (VERIF_REPO), so it can run next to other checks. Removes both when done.
 set -u
 GLOB="${1:-*}"
-V=/tmp/verif-matrix
-rm -rf "$V"; mkdir -p "$V"
-rsync -a --exclude build --exclude replays --exclude .git --exclude evidence_thorough /verif/ "$V"/
-mkdir -p "$V/build"; cp /verif/build/vrewrite "$V/build/" 2>/dev/null
-IDS=(C01 C02 C03 C04 C05 C06 C07 C08 C09 C10 C11 C12 C13 C14 C15 C16 C17 C18 C19 C20)
+LANES="${2:-4}"
 OUT=/verif/build/matrix.tsv
-: > "$OUT"
-for S in /verif/seeded/$GLOB/; do
-  N=$(basename "$S")
-  [ -f "$S/patch.diff" ] || continue
-  WT=/tmp/wt-matrix
-  git -C /repo worktree remove --force "$WT" 2>/dev/null
-  git -C /repo worktree add -q "$WT" HEAD || continue
-  if ! git -C "$WT" apply "$S/patch.diff" 2>/dev/null; then
-    echo -e "$N\tPATCH-DOES-NOT-APPLY" >> "$OUT"; git -C /repo worktree remove --force "$WT"; continue
-  fi
-  LINE="$N"
-  for ID in "${IDS[@]}"; do
-    VERIF_REPO="$WT" VERIF_SKIP_RACE=1 timeout 1500 "$V/check" "$ID" > "$V/build/out.$ID" 2>&1
-    RC=$?
-    case $RC in 0) R=-;; 1) R=X;; *) R="?$RC";; esac
-    LINE="$LINE\t$R"
+mkdir -p /verif/build/matrix; rm -f /verif/build/matrix/*.row
+lane() {
+  L="$1"; shift
+  V=/tmp/verif-matrix-$L
+  WT=/tmp/wt-matrix-$L
+  rm -rf "$V"; mkdir -p "$V"
+  rsync -a --exclude build --exclude replays --exclude .git --exclude evidence_thorough /verif/ "$V"/
+  mkdir -p "$V/build"; cp /verif/build/vrewrite "$V/build/" 2>/dev/null
+  for N in "$@"; do
+    S=/verif/seeded/$N
+    git -C /repo worktree remove --force "$WT" 2>/dev/null
+    git -C /repo worktree add -q "$WT" HEAD || continue
+    if ! git -C "$WT" apply "$S/patch.diff" 2>/dev/null; then
+      echo -e "$N\tPATCH-DOES-NOT-APPLY" > "/verif/build/matrix/$N.row"; git -C /repo worktree remove --force "$WT"; continue
+    fi
+    IDS=$(python3 - "$S/meta.json" <<'PY'
+import json,re,sys,os
+m=json.load(open(sys.argv[1]))
+ids={m["property"]}|set(re.findall(r"\bC\d\d\b",m.get("check_result","")))
+if os.environ.get("MATRIX_ALL"): ids={"C%02d"%i for i in range(1,21)}
+print(" ".join(sorted(ids)))
+PY
+)
+    LINE="$N"
+    for ID in $IDS; do
+      VERIF_REPO="$WT" VERIF_SKIP_RACE=1 timeout 1800 "$V/check" "$ID" > "$V/build/out.$ID" 2>&1
+      RC=$?
+      case $RC in 0) R=-;; 1) R=X;; *) R="?$RC";; esac
+      LINE="$LINE\t$ID=$R"
+    done
+    echo -e "$LINE" > "/verif/build/matrix/$N.row"
+    git -C /repo worktree remove --force "$WT"
   done
-  echo -e "$LINE" >> "$OUT"
-  git -C /repo worktree remove --force "$WT"
+  rm -rf "$V"
+}
+NAMES=()
+for S in /verif/seeded/$GLOB/; do [ -f "$S/patch.diff" ] && NAMES+=("$(basename "$S")"); done
+for ((l=0;l<LANES;l++)); do
+  MINE=()
+  for ((i=l;i<${#NAMES[@]};i+=LANES)); do MINE+=("${NAMES[$i]}"); done
+  lane "$l" "${MINE[@]}" &
 done
+wait
+cat /verif/build/matrix/*.row > "$OUT"
 python3 - "$OUT" <<'PY'
-import sys
+import sys,json
 ids=["C%02d"%i for i in range(1,21)]
 rows=[l.rstrip("\n").split("\t") for l in open(sys.argv[1])]
 with open("/verif/seeded/MATRIX.md","w") as f:
-    f.write("# Which quick checks catch which seeded changes\n\nX = the check exits 1 with a VIOLATION line on the tree with the change applied, - = exits 0, ?n = harness error n (build failure / timeout). Produced by `tools/seedmatrix.sh` (every check against every kept change, on the current /repo HEAD + the change).\n\n")
-    f.write("| seed | "+" | ".join(i[1:] for i in ids)+" |\n|---|"+"---|"*len(ids)+"\n")
-    for r in rows:
-        if len(r)==2: f.write(f"| {r[0]} | {r[1]} |\n"); continue
-        f.write("| "+r[0]+" | "+" | ".join(r[1:])+" |\n")
+    f.write("# Which quick checks catch which seeded changes\n\nX = the check exits 1 with a VIOLATION line on the tree with the change applied, - = exits 0, ?n = harness error n (build failure / timeout), blank = not run (the check is not recorded as related to that change). Produced by `tools/seedmatrix.sh` on the current /repo HEAD + the change; the -race add-on pass is skipped.\n\n")
+    f.write("| seed | "+" | ".join(i[1:] for i in ids)+" | own check |\n|---|"+"---|"*(len(ids)+1)+"\n")
+    for r in sorted(rows):
+        if len(r)==2 and "=" not in r[1]: f.write(f"| {r[0]} | {r[1]} |\n"); continue
+        d=dict(c.split("=",1) for c in r[1:])
+        own=r[0][:3]
+        f.write("| "+r[0]+" | "+" | ".join(d.get(i," ") for i in ids)+" | "+("caught" if d.get(own)=="X" else "by neighbour" if "X" in d.values() else "NOT CAUGHT")+" |\n")
 PY
-rm -rf "$V"
 echo MATRIX-DONE
